@@ -110,6 +110,15 @@ def result_items(g, res):
     return out
 
 
+def net_triples(graph):
+    out = []
+    for s, cnt in (graph or {}).items():
+        for k, w in cnt.items():
+            if k not in ("pages_crawled", "pages_uncrawled"):
+                out.append({"s": s, "t": k, "w": w})
+    return out
+
+
 def run_coop(seed, profile, backend, tid, hook=None):
     """One scenario, one schedule -> a concrete trace."""
     d, setup_n, ncrawl = make_scenario(seed, profile, backend)
@@ -191,7 +200,7 @@ def run_coop(seed, profile, backend, tid, hook=None):
             while live and nsteps < 400:
                 nsteps += 1
                 j = rng.choice(live)
-                op = {"op": "CoopNext", "g": j + 1, "done": False, "result": []}
+                op = {"op": "CoopNext", "g": j + 1, "done": False, "result": [], "net": []}
                 res = {"exc": "", "pages": 0, "created": [], "ret": None}
                 del impl.WRITE_LOG[:]
                 try:
@@ -207,6 +216,8 @@ def run_coop(seed, profile, backend, tid, hook=None):
                             results[j] = result_items(descr[j], state.result)
                             if descr[j]["kind"] in ("qpages", "qcrawled"):
                                 op["result"] = list(results[j])
+                            if descr[j]["kind"] == "qnet":
+                                op["net"] = net_triples(state.result)
                 except StopIteration:
                     op["done"] = True
                     live.remove(j)
@@ -281,7 +292,7 @@ def replay_coop(backend, default, rules, ops, tid=0):
                 elif op["op"] == "CoopNext":
                     seen_next += 1
                     j = op["g"] - 1
-                    o2 = {"op": "CoopNext", "g": j + 1, "done": False, "result": []}
+                    o2 = {"op": "CoopNext", "g": j + 1, "done": False, "result": [], "net": []}
                     res = {"exc": "", "pages": 0, "created": [], "ret": None}
                     try:
                         with warnings.catch_warnings(), impl.time_limit():
@@ -295,6 +306,8 @@ def replay_coop(backend, default, rules, ops, tid=0):
                                 results[j] = result_items(descr[j], state.result)
                                 if descr[j]["kind"] in ("qpages", "qcrawled"):
                                     o2["result"] = list(results[j])
+                                if descr[j]["kind"] == "qnet":
+                                    o2["net"] = net_triples(state.result)
                     except StopIteration:
                         o2["done"] = True
                     except Exception as e:
